@@ -47,9 +47,10 @@ func init() {
 			"The history (invoke/return stamped with the global event sequence; an append's invocation is the event at which its fsync returned) is checked by a direct interval oracle (each read's result must hold in a log state current during its interval; an entry present throughout must be returned intact; a non-not-found error only for an index a truncation removed during the read) and by porcupine v1.3.0 against the log model. " +
 			"Non-trivial = at least one read overlapped a writer operation; distinct = distinct interleaving hashes (sequence of (task, point) at decisions with >= 2 runnable tasks).",
 		Components:     compA + "; linearizability checker: porcupine v1.3.0",
-		Assumptions:    []string{"data-race freedom is not decided by this check (see DESIGN.md section 10: the race detector needs an edge-free scheduler hand-off, not built)", "histories are bounded (<= ~120 operations) so porcupine terminates; Unknown verdicts are counted, never reported"},
+		Assumptions:    []string{"the data-race clause is decided by the race stage (coverage.race_stage_*): the detector only sees the accesses the explored schedules perform, and the edges of the simulated storage mirror package syscall (pread after pwrite) and bbolt's locks", "histories are bounded (<= ~120 operations) so porcupine terminates; Unknown verdicts are counted, never reported"},
 		RequiredProbes: []string{"reads_overlapping_a_write", "porcupine_ok", "history_ops", "truncations"},
 		QuickS:         50, ThoroughS: 900,
+		Workers: 11, RaceWorkers: 5,
 	}
 	propSpecs["C11"] = &PropSpec{
 		ID: "C11",
